@@ -7,8 +7,9 @@ prepare = kbridge.prepare_for('C03')    # regenerates Generated/KernelRun03.lean
 from vlib.util import VERIF, REPO
 ASSUMPTIONS = ['"observable trace" = what process bodies and probe callbacks see (env.now, values, exceptions, order)',
                'hash-seed independence is sampled (fresh interpreters with several PYTHONHASHSEED values), not a theorem',
+               'hash-seed scenarios configure schedulers with integer weights (the annotated type); WFQ over string class ids with non-integer weights sums them in set order and is hash-seed dependent on the unchanged tree (findings/demos/C03_wfq_float_weights_hashseed.py), not generated',
                'run(until=event) for an event that fails re-raises its exception after all of its waiters have run (repaired in /repo)']
-SPEC = [(3, 'plan:time'), (3, 'plan:outcome'), (2, 'plan:cond'), (2, 'plan:intr'), (2, 'plan:res'), (2, 'plan:store'), (1, 'untilfail'), (1, 'untilreact'), (2, 'crashplan')]
+SPEC = [(3, 'plan:time'), (3, 'plan:outcome'), (2, 'plan:cond'), (2, 'plan:intr'), (2, 'plan:res'), (2, 'plan:store'), (1, 'untilfail'), (1, 'untilreact'), (2, 'crashplan'), (2, 'untiljoin')]
 
 CHILD = r'''
 import sys, json, hashlib
@@ -69,14 +70,18 @@ def run(ctx):
 
 def net_part(ctx, res, seeds):
     # network scenarios (schedulers, port, wire; int and string flow ids) under several hash seeds
-    from harness import netscen
-    base = netscen.all_digests(ctx.seed)
+    from harness import netscen, netfan
+    # ... and the fan-out scenarios of harness/netfan.py (Hub broadcasts to string-named stations, Splitter/NSplitter, string-keyed
+    # FIBDemux / switch / scheduler-class tables, one shared log): same-instant delivery order is part of their traces
+    all_digests = lambda seed: {**netscen.all_digests(seed), **netfan.all_digests(seed)}
+    base = all_digests(ctx.seed)
     nnet = len(base)
     # "executing the same simulation program twice, in the same ... interpreter process ... yields an identical observable
     # trace": every scenario is executed a second time in this process (the stochastic ones - lossy Wire, REDPort, RandomDemux -
     # re-seed `random` at their start, as the program does); other simulations, stochastic ones included, ran in between
     stats = dict(netscen.STATS)
-    again_net = netscen.all_digests(ctx.seed)
+    fstats = dict(netfan.STATS)
+    again_net = all_digests(ctx.seed)
     nnet += len(again_net)
     for k in base:
         if base[k] != again_net.get(k):
@@ -84,18 +89,29 @@ def net_part(ctx, res, seeds):
                                                    f'process gave a different delivery trace (first run: {stats.get(k)} packets sent/delivered, '
                                                    f'second run: {netscen.STATS.get(k)})',
                                            'signature': 'not-reproducible-net', 'case': {'scenario': k, 'seed': ctx.seed, 'executions': 2}})
+    res['coverage']['fanout_scenarios'] = len(fstats)
+    res['coverage']['fanout_scenarios_with_3_or_more_deliveries_in_one_instant'] = sum(1 for a, b in fstats.values() if b >= 3)
+    res['coverage']['fanout_puts'] = sum(a for a, b in fstats.values())
+    what = lambda k: f'network scenario {k}' + (f' ({netfan.describe(k)}; {fstats[k][0]} fan-out puts, up to {fstats[k][1]} deliveries '
+                                                f'logged in one instant)' if k in fstats else '')
     res['coverage']['stochastic_scenarios'] = len(stats)
     res['coverage']['stochastic_scenarios_with_loss'] = sum(1 for a, b in stats.values() if 0 < b < a)
     for hs in seeds:
         env = dict(os.environ, PYTHONHASHSEED=str(hs), PYTHONPATH=f'{VERIF}:{REPO}')
-        r = subprocess.run([sys.executable, '-m', 'harness.netscen', str(ctx.seed)], capture_output=True, text=True, env=env, timeout=900, cwd=VERIF)
+        r = subprocess.run([sys.executable, '-m', 'harness.netfan', str(ctx.seed)], capture_output=True, text=True, env=env, timeout=900, cwd=VERIF)
         if r.returncode != 0:
             raise RuntimeError('network scenario interpreter failed: ' + r.stderr[-800:])
         other = json.loads(r.stdout)
         nnet += len(other)
         for k in base:
             if base[k] != other.get(k):
-                res['oracle_failures'].append({'what': f'network scenario {k}: the delivery trace under PYTHONHASHSEED={hs} differs from the in-process run',
+                where = ''
+                if k in fstats and sum(1 for f in res['oracle_failures'] if f['signature'] == 'hashseed-dependence-net') < 3:
+                    # say where the two traces part: the scenario once more, alone, here and in a fresh interpreter under that seed
+                    r1 = subprocess.run([sys.executable, '-m', 'harness.netfan', str(ctx.seed), k], capture_output=True, text=True, env=env, timeout=900, cwd=VERIF)
+                    if r1.returncode == 0:
+                        where = ' - ' + netfan.first_difference(netfan.one_trace(ctx.seed, k), json.loads(r1.stdout))
+                res['oracle_failures'].append({'what': f'{what(k)}: the delivery trace under PYTHONHASHSEED={hs} differs from the in-process run{where}',
                                                'signature': 'hashseed-dependence-net', 'case': {'scenario': k, 'seed': ctx.seed, 'hashseed': hs}})
     # second half on network programs: the monitored scenarios driven by run(until=t)/step() pieces against the single run(until=T)
     sf, scov = netscen.split_failures(ctx.seed)
